@@ -249,8 +249,8 @@ def run_scenario(sc, rng, workdir, idx):
     try:
         try:
             ur = g.run(g.uploader.upload(FixedKeyData(data, k, n, happy)))
-            placed = {str(sh): sorted(s.get_nickname() for s in servers) for sh, servers in ur.get_sharemap().items()}
-            found = {str(sh): sorted(byid.get(x, "?") for x in v) for sh, v in (found_seen[-1] if found_seen else {}).items()}
+            placed = sorted([s.get_nickname(), sh] for sh, servers in ur.get_sharemap().items() for s in servers)
+            found = sorted([byid.get(x, "?"), sh] for sh, v in (found_seen[-1] if found_seen else {}).items() for x in v)
             result = {"ev": "Success", "placed": placed, "found": found, "preexisting_count": ur.get_preexisting_shares(),
                       "pushed": ur.get_pushed_shares()}
         except Hang as e:
